@@ -34,9 +34,6 @@ type vectorOperator struct {
 
 	// series contains the output series of the operator
 	series []labels.Labels
-	// The outputCache is an internal cache used to calculate
-	// the binary operation of the lhs and rhs operator.
-	outputCache []outputSample
 	// table is used to calculate the binary operation of two step vectors between
 	// the lhs and rhs operator.
 	table *table
@@ -131,7 +128,7 @@ func (o *vectorOperator) initOutputs(ctx context.Context) error {
 	keepName := !shouldDropMetricName(o.opType, o.returnBool)
 	highCardHashes, highCardInputMap := o.hashSeries(highCardSide, keepLabels, keepName, buf)
 	lowCardHashes, lowCardInputMap := o.hashSeries(lowCardSide, keepLabels, keepName, buf)
-	output, highCardOutputIndex, lowCardOutputIndex := o.join(highCardHashes, highCardInputMap, lowCardHashes, lowCardInputMap, includeLabels)
+	output, highCardOutputIndex, _ := o.join(highCardHashes, highCardInputMap, lowCardHashes, lowCardInputMap, includeLabels)
 
 	series := make([]labels.Labels, len(output))
 	for _, s := range output {
@@ -139,19 +136,49 @@ func (o *vectorOperator) initOutputs(ctx context.Context) error {
 	}
 	o.series = series
 
-	o.outputCache = make([]outputSample, len(series))
-	for i := range o.outputCache {
-		o.outputCache[i].lhT = -1
-	}
 	o.pool.SetStepSize(len(highCardSide))
+
+	// Match groups, numbered across both sides.
+	signatures := make(map[uint64]int)
+	signatureIDs := func(numSeries int, inputMap map[uint64][]uint64) []int {
+		ids := make([]int, numSeries)
+		for hash, seriesIDs := range inputMap {
+			id, ok := signatures[hash]
+			if !ok {
+				id = len(signatures)
+				signatures[hash] = id
+			}
+			for _, seriesID := range seriesIDs {
+				ids[seriesID] = id
+			}
+		}
+		return ids
+	}
+	highCardSignatures := signatureIDs(len(highCardSide), highCardInputMap)
+	lowCardSignatures := signatureIDs(len(lowCardSide), lowCardInputMap)
+
+	// Output series with equal labels share a group.
+	outputGroups := make([]int, len(series))
+	outputGroupIDs := make(map[string]int, len(series))
+	for i, s := range series {
+		key := s.String()
+		id, ok := outputGroupIDs[key]
+		if !ok {
+			id = len(outputGroupIDs)
+			outputGroupIDs[key] = id
+		}
+		outputGroups[i] = id
+	}
 
 	o.table = newTable(
 		o.pool,
 		o.matching.Card,
 		o.operation,
-		o.outputCache,
-		newHighCardIndex(highCardOutputIndex),
-		lowCardinalityIndex(lowCardOutputIndex),
+		highCardOutputIndex,
+		highCardSignatures,
+		lowCardSignatures,
+		len(signatures),
+		outputGroups,
 	)
 
 	return nil
@@ -193,6 +220,10 @@ func (o *vectorOperator) Next(ctx context.Context) ([]model.StepVector, error) {
 				batch = append(batch, step)
 				o.rhs.GetPool().PutStepVector(rhs[i])
 				continue
+			}
+
+			if err.multipleMatches != "" {
+				return nil, errors.New(err.multipleMatches)
 			}
 
 			var sampleID, duplicateSampleID labels.Labels
